@@ -70,7 +70,9 @@ impl CharacterData {
     // two clauses of compat_post, proved in unit chardata
     #[verifier::external_body]
     pub fn check_version_compatibility(&self, data_spec: &CharacterDataSpec, target_version: AutosarVersion) -> (r: (bool, u32))
-        ensures r.0 == valid(*self, *data_spec, target_version as u32), r.0 ==> r.1 & (target_version as u32) != 0
+        ensures r.0 == valid(*self, *data_spec, target_version as u32), r.0 ==> r.1 & (target_version as u32) != 0,
+            // third clause (lemma_compat_iff in unit chardata): when an enumeration value is held wherever one is expected, the mask has the target exactly when compatible
+            value_kind_ok(*self, *data_spec) ==> (r.0 <==> r.1 & (target_version as u32) != 0)
     { unimplemented!() }
     #[verifier::external_body]
     pub fn to_string(&self) -> (r: String) { unimplemented!() }
@@ -118,16 +120,21 @@ impl ArxmlFile {
     pub fn vx_write_version(&self, v: AutosarVersion) { unimplemented!() }
 }
 #[verifier::external_body]
-pub fn vx_unnamed_mask(t: ElementType) -> (r: u32) { unimplemented!() }
+pub fn vx_unnamed_mask(t: ElementType) -> (r: u32)
+    // what the fold computes: the union of the versions in which the type is not identifiable (ASSUMED reading of the iterator chain)
+    ensures forall|v: AutosarVersion| named_in(t.typ as int, #[trigger] ver_bits(v)) ==> r & ver_bits(v) == 0
+{ unimplemented!() }
 #[verifier::external_body]
 pub fn vx_compat_error() -> (r: CompatibilityError) { unimplemented!() }
 
 pub open spec fn single_bit(v: u32) -> bool { v != 0 && v & sub(v, 1) == 0 }
 pub proof fn lemma_and_mask(a: u32, b: u32, v: u32)
-    ensures (single_bit(v) && a & v != 0 && b & v != 0) ==> (a & b) & v != 0, single_bit(v) ==> u32::MAX & v != 0
+    ensures (single_bit(v) && a & v != 0 && b & v != 0) ==> (a & b) & v != 0, single_bit(v) ==> u32::MAX & v != 0,
+        (a & v == 0 || b & v == 0) ==> (a & b) & v == 0
 {
     assert((v != 0 && v & sub(v, 1) == 0 && a & v != 0 && b & v != 0) ==> (a & b) & v != 0) by(bit_vector);
     assert(v != 0 ==> 0xffff_ffffu32 & v != 0) by(bit_vector);
+    assert((a & v == 0 || b & v == 0) ==> (a & b) & v == 0) by(bit_vector);
 }
 %(single_bit_lemma)s
 // ---- the statement
@@ -193,6 +200,29 @@ pub open spec fn subtree_consistent_child(e: Element, i: int) -> bool
 #[via_fn]
 proof fn stc_decreases(e: Element, i: int) { axiom_height(e, i); }
 
+// ---- value kinds (model consistency, ASSUMED as a precondition): wherever the target version's type expects an enumeration value, the
+// element holds one (the loader and the editing API only store enumeration values there; a text where an enumeration item is expected
+// would be reported as incompatible with the mask u32::MAX)
+pub uninterp spec fn is_enum_value(cd: CharacterData) -> bool;
+pub open spec fn value_kind_ok(cd: CharacterData, s: CharacterDataSpec) -> bool { s is Enum ==> is_enum_value(cd) }
+pub open spec fn attr_kind_ok(a: Attribute, tn: int) -> bool { forall|k: int| attr_at(tn, k, a.attrname) ==> value_kind_ok(a.content, t_cd(attrs_of(tn)[k].1 as int)) }
+pub open spec fn content_kind_ok(c: ElementContent, tn: int) -> bool {
+    c matches ElementContent::CharacterData(cd) ==> (t_dt(tn).character_data matches Some(s) ==> value_kind_ok(cd, t_cd(s as int)))
+}
+pub open spec fn kinds_ok(e: Element, v: u32) -> bool
+    decreases height(e)
+{
+    let tn = new_type(e, v).typ as int;
+    &&& forall|i: int| 0 <= i < attrs_of_elem(e).len() ==> attr_kind_ok(#[trigger] attrs_of_elem(e)[i], tn)
+    &&& forall|i: int| 0 <= i < content_of(e).len() ==> content_kind_ok(#[trigger] content_of(e)[i], tn)
+    &&& forall|i: int| 0 <= i < sub_elems(e).len() ==> (#[trigger] parent_of(sub_elems(e)[i]) == Some(e) ==> kinds_ok_child(e, i, v))
+}
+pub open spec fn kinds_ok_child(e: Element, i: int, v: u32) -> bool
+    decreases height(e), 0nat when 0 <= i < sub_elems(e).len() via kok_decreases
+{ kinds_ok(sub_elems(e)[i], v) }
+#[via_fn]
+proof fn kok_decreases(e: Element, i: int, v: u32) { axiom_height(e, i); }
+
 pub open spec fn ver_bits(tv: AutosarVersion) -> u32 { tv as u32 }
 // Closed table fact, ASSUMED here and discharged on the real statics by `ground lib tables_crosstype`:
 // an index list found in one listing of a name resolves (to an element entry) in every other listing of that name under the same parent type
@@ -215,8 +245,9 @@ R45 = [
     (r'sub_element\.0\.read\(\)\.file_membership\.is_empty\(\) \|\| sub_element\.0\.read\(\)\.file_membership\.contains\(file\)', lambda m: 'sub_element.vx_relevant(file)', 'R45'),
     (r'elemtype_new\s*\.find_sub_element\(sub_element\.element_name\(\), target_version as u32\)\s*\.or\(elemtype_new\.find_sub_element\(sub_element\.element_name\(\), u32::MAX\)\)',
      lambda m: '(match elemtype_new.find_sub_element(sub_element.element_name(), target_version as u32) { Some(vx_v) => Some(vx_v), None => elemtype_new.find_sub_element(sub_element.element_name(), u32::MAX) })', 'R45'),
-    (r'self\s*\.element_type\(\)\s*\.find_attribute_spec\(attribute\.attrname\)\s*\.map_or\(0, \|spec\| spec\.version\)',
-     lambda m: '(match self.element_type().find_attribute_spec(attribute.attrname) { Some(spec) => spec.version, None => 0 })', 'R45'),
+    (r'let version_mask = self\s*\.element_type\(\)\s*\.find_attribute_spec\(attribute\.attrname\)\s*\.map_or\(0, \|spec\| spec\.version\)\s*& !\(target_version as u32\);',
+     lambda m: 'let vx_own: u32 = (match self.element_type().find_attribute_spec(attribute.attrname) { Some(spec) => spec.version, None => 0 }); let version_mask = vx_own & !(target_version as u32); '
+               'proof { let vx_w: u32 = target_version as u32; assert((vx_own & !vx_w) & vx_w == 0) by(bit_vector); }', 'R45'),
     (r'get_sub_element_version_mask\(&indices\)', lambda m: 'get_sub_element_version_mask(indices.as_slice())', 'R45'),
     (r'attribute_value: attribute\.content\.to_string\(\),', lambda m: '', 'none'),
 ]
@@ -251,12 +282,13 @@ def make_unit(repo_dir):
 
     def S(k):
         return 'forall|i: int| 0 <= i < %s ==> child_compat(*self, #[trigger] sub_elems(*self)[i], *file, %s)' % (k, TV)
-    base = ['(%s) ==> overall_version_mask & (%s) != 0' % (E0, TV), 'single_bit(%s)' % TV, 'wf_tables()', 'subtree_consistent(*self)', 'elemtype_new == new_type(*self, %s)' % TV, 'elemtype_new.typ < n_dt()',
+    base = ['(%s) ==> overall_version_mask & (%s) != 0' % (E0, TV), '!(%s) ==> overall_version_mask & (%s) == 0' % (E0, TV), 'kinds_ok(*self, %s)' % TV, 'single_bit(%s)' % TV, 'wf_tables()', 'subtree_consistent(*self)', 'elemtype_new == new_type(*self, %s)' % TV, 'elemtype_new.typ < n_dt()',
             'parent_of(*self) matches Some(p) ==> type_listed(type_of(p).typ as int, name_of(*self), elemtype_new)']
     fns.append(FnSpec('check_version_compatibility', F, impl=IMPL_E, ret='r', body_sub=R45, sig_sub=[(r'pub\(crate\) fn', 'pub fn')],
-               requires=['subtree_consistent(*self)'],
+               requires=['subtree_consistent(*self)', 'kinds_ok(*self, %s)' % TV],
                ensures=['r.0@.len() == 0 <==> tree_compat(*self, *file, %s)' % TV,
-                        'r.0@.len() == 0 ==> r.1 & (%s) != 0' % TV],
+                        # the returned mask contains the target version exactly when nothing is listed
+                        'r.0@.len() == 0 <==> r.1 & (%s) != 0' % TV],
                decreases='height(*self)',
                loops={0: dict(invariant=base + ['vx_attributes <= element.attributes.len()', 'element.attributes@ == attrs_of_elem(*self)', 'element.content@ == content_of(*self)',
                                                 '(%s) <==> ((%s) && (%s))' % (E0, N, A('vx_attributes'))], decreases='element.attributes.len() - vx_attributes'),
@@ -265,7 +297,8 @@ def make_unit(repo_dir):
                                                 '(%s) <==> ((%s) && (%s) && (%s))' % (E0, N, A('attrs_of_elem(*self).len()'), C('vx_content'))], decreases='element.content.len() - vx_content'),
                       2: dict(invariant=base + ['vx_si <= vx_subs.len()', 'vx_subs@ == sub_elems(*self)',
                                                 '(%s) <==> ((%s) && (%s) && (%s) && (%s))' % (E0, N, A('attrs_of_elem(*self).len()'), C('content_of(*self).len()'), S('vx_si'))], decreases='vx_subs.len() - vx_si')},
-               proofs=[dict(at='body_start', text='proof { axiom_tables(); lemma_single_bit(target_version); lemma_and_mask(0, 0, target_version as u32); assert forall|a: u32, b: u32| #[trigger] (a & b) == b & a by { assert(a & b == b & a) by(bit_vector); } }'),
+               proofs=[dict(at='body_start', text='proof { axiom_tables(); lemma_single_bit(target_version); lemma_and_mask(0, 0, target_version as u32); assert forall|a: u32, b: u32| #[trigger] (a & b) == b & a by { assert(a & b == b & a) by(bit_vector); } assert forall|x: u32, w: u32| #[trigger] ((x & !w) & w) == 0 by { assert((x & !w) & w == 0) by(bit_vector); } }'),
+                       dict(after=r'let version_mask = vx_unnamed_mask\(elemtype_new\);', text='proof { assert(ver_bits(target_version) == target_version as u32); assert(version_mask & ver_bits(target_version) == 0); }'),
                        dict(after=r'vx_attributes \+= 1;', indent=True, text='''let ghost n0 = compat_errors@.len();
 proof { assert(*attribute == attrs_of_elem(*self)[vx_attributes - 1]); }'''),
                        dict(after=r'\}\) = elemtype_new\.find_attribute_spec\(attribute\.attrname\)\s*\n\s*\{', indent=True, text='''let ghost k0: int = choose|k: int| attr_at(elemtype_new.typ as int, k, attribute.attrname) && version_mask == t_ver(t_dt(elemtype_new.typ as int).attributes_ver + k) && *value_spec == t_cd(attrs_of(elemtype_new.typ as int)[k].1 as int);
@@ -293,6 +326,8 @@ proof {
         assert(k == k0);
         assert(is_compatible);
     }
+    assert(attr_kind_ok(*attribute, tn));
+    assert(value_kind_ok(attribute.content, *value_spec));
     if is_compatible { assert(attr_at(tn, k0, attribute.attrname) && v & t_ver(t_dt(tn).attributes_ver + k0) != 0 && valid(attribute.content, t_cd(attrs_of(tn)[k0].1 as int), v)); }
     assert((compat_errors@.len() == n0) <==> attr_compat(*attribute, tn, v));
 }'''),
@@ -322,6 +357,7 @@ proof {
     axiom_height(*self, vx_si - 1);
     assert(sub_elems(*self)[vx_si - 1] == sub_element);
     assert(subtree_consistent_child(*self, vx_si - 1));
+    assert(kinds_ok_child(*self, vx_si - 1, target_version as u32));
     assert(exists|i: int| 0 <= i < sub_elems(*self).len() && sub_elems(*self)[i] == sub_element);
 }'''),
                        dict(before=r'^\s*let version_mask = self\.element_type\(\)\.get_sub_element_version_mask\(indices\.as_slice\(\)\)\.unwrap\(\);', text='''proof {
@@ -344,13 +380,13 @@ proof {
     F_A = 'autosar-data/src/arxmlfile.rs'
     IMPL_A = r'impl ArxmlFile'
     fns.append(FnSpec('check_version_compatibility', F_A, impl=IMPL_A, ret='r', label='ArxmlFile.check_version_compatibility',
-               requires=['root_of_file(*self) matches Some(root) ==> subtree_consistent(root)'],
-               ensures=['root_of_file(*self) matches Some(root) ==> (r.0@.len() == 0 <==> tree_compat(root, weak_of(*self), %s)) && (r.0@.len() == 0 ==> r.1 & (%s) != 0)' % (TV, TV),
+               requires=['root_of_file(*self) matches Some(root) ==> subtree_consistent(root) && kinds_ok(root, %s)' % TV],
+               ensures=['root_of_file(*self) matches Some(root) ==> (r.0@.len() == 0 <==> tree_compat(root, weak_of(*self), %s)) && (r.0@.len() == 0 <==> r.1 & (%s) != 0)' % (TV, TV),
                         'root_of_file(*self) is None ==> r.0@.len() == 0 && r.1 == 0']))
     fns.append(FnSpec('set_version', F_A, impl=IMPL_A, ret='r',
                body_sub=[(r'let mut file = self\.0\.write\(\);\s*file\.version = new_ver;', lambda m: 'self.vx_write_version(new_ver);', 'R45'),
                          (r'AutosarDataError::VersionIncompatibleData \{[^{}]*\}', lambda m: 'AutosarDataError::VxOther(0)', 'R45')],
-               requires=['root_of_file(*self) matches Some(root) ==> subtree_consistent(root)'],
+               requires=['root_of_file(*self) matches Some(root) ==> subtree_consistent(root) && kinds_ok(root, new_ver as u32)'],
                ensures=['r is Ok ==> (root_of_file(*self) matches Some(root) ==> tree_compat(root, weak_of(*self), new_ver as u32))',
                         'r is Err ==> (root_of_file(*self) matches Some(root) && !tree_compat(root, weak_of(*self), new_ver as u32))']))
     u = Unit(name='compatwalk', prop='C17', spec=spec, fns=fns,
